@@ -22,6 +22,9 @@ class C04(HistProp):
         n = 1500 if tier == 'thorough' else 150
         for i in range(n):
             hs.append(hist.history(rng, 200 if i % 4 == 0 else 60))
+        # rule-following histories in which the allocator refuses a growth request: the failed insertion must not disturb any count
+        from .C12 import refused_growth_histories
+        hs += refused_growth_histories()
         return hs
 
     def judge(self, lines, outs, expect):
